@@ -260,7 +260,10 @@ pub enum Driven<T> {
 }
 
 pub fn poll_catch<F: Future + ?Sized>(f: &mut Pin<Box<F>>, w: &Arc<CountWaker>) -> Result<Poll<F::Output>, String> {
-    match catch_unwind(AssertUnwindSafe(|| sim::poll_once(f, w))) {
+    sim::IN_APP_POLL.store(true, Ordering::SeqCst);
+    let polled = catch_unwind(AssertUnwindSafe(|| sim::poll_once(f, w)));
+    sim::IN_APP_POLL.store(false, Ordering::SeqCst);
+    match polled {
         Ok(p) => Ok(p),
         Err(e) => {
             let msg = if let Some(s) = e.downcast_ref::<&str>() {
@@ -669,6 +672,7 @@ impl Env {
             "budget" => {
                 // the application's task gets k transport reads per poll of the task (a runtime's cooperative budget)
                 sim::set_budget(op.get("k").and_then(|v| v.as_i64()));
+                sim::BUDGET_WRITES.store(op.get("writes").and_then(|v| v.as_bool()).unwrap_or(false), Ordering::SeqCst);
             }
             _ => return false,
         }
@@ -774,6 +778,56 @@ pub async fn run_scenario(sc: &Value) -> Vec<Value> {
                 }
                 None => None,
             },
+            "send_burst" => {
+                // the application sends in a tight loop: nothing else runs on the thread between two sends (no task of the
+                // socket gets a turn) unless a send itself gives control back
+                let ms: Vec<Vec<Vec<u8>>> = op.get("ms").and_then(|v| v.as_array()).map(|a| a.iter().map(frames_of).collect()).unwrap_or_default();
+                for frames in ms {
+                    let d = rc::mdesc(&frames);
+                    let n: usize = frames.iter().map(|f| f.len() + if f.len() > 255 { 9 } else { 2 }).sum();
+                    let first: Vec<u8> = frames.first().map(|f| f[..f.len().min(16)].to_vec()).unwrap_or_default();
+                    let Some(mut f) = sock.send(to_msg(&frames)) else { continue };
+                    env.ev(json!({"ev":"send_call","m":d,"n":n,"note":{"first":first}}));
+                    let w = CountWaker::new();
+                    let mut polls = 0usize;
+                    loop {
+                        polls += 1;
+                        let before = w.count();
+                        match poll_catch(&mut f, &w) {
+                            Err(m) => {
+                                take_panics();
+                                env.ev(json!({"ev":"panic","where":"send","msg":m}));
+                                env.ev(json!({"ev":"send_ret","res":"panic","polls":polls}));
+                                break;
+                            }
+                            Ok(Poll::Ready(Ok(()))) => {
+                                env.scan();
+                                let parts = env.partials();
+                                env.ev(json!({"ev":"send_ret","res":"ok","polls":polls,"partials":parts}));
+                                break;
+                            }
+                            Ok(Poll::Ready(Err(e))) => {
+                                env.scan();
+                                let (k, ret) = errkind(&e);
+                                env.ev(json!({"ev":"send_ret","res":"err","err":k,"returned":ret.map(|r| rc::mdesc(&r)),"polls":polls}));
+                                break;
+                            }
+                            Ok(Poll::Pending) => {
+                                // the send gave control back: the executor runs what is runnable
+                                sim::task_yielded();
+                                sim::settle().await;
+                                env.scan();
+                                if w.count() == before || polls > 1000 {
+                                    env.ev(json!({"ev":"send_pending","polls":polls,"wakes":w.count()}));
+                                    env.ev(json!({"ev":"send_dropped","polls":polls}));
+                                    break;
+                                }
+                            }
+                        }
+                    }
+                }
+                None
+            }
             "send" | "send_to" => {
                 let mut frames = frames_of(&op["m"]);
                 if name == "send_to" {
